@@ -1,4 +1,5 @@
 """C11 Delimited lists parse segment by segment, one error per bad segment."""
+import re
 from .. import sexp, parsegen, spangen, lexsim, peg
 from .gbase import GProp, pfields, mk_case, run_result
 from .C02 import gen_list
@@ -78,6 +79,18 @@ class C11(GProp):
         nsink = len(it[-1]) - 1
         if not fails and nsink != ref[4]:
             fails.append(((1,), tag + '%s: %d errors reported, reference expects %d' % (what, nsink, ref[4])))
+        # every bad segment's error lies between the separators (or list boundaries) delimiting its segment, inclusive
+        bounds = list(peg.reference.list_bounds)
+        if not fails and sexp.dump(c['g']).count('(list') == 1:
+            entries = [e for e in it[-1][1:] if not (isinstance(e, list) and e and e[0] == 'count')]
+            if len(entries) == len(bounds):
+                for n_, (e, (lo_b, hi_b)) in enumerate(zip(entries, bounds)):
+                    for m in re.finditer(r'(\d+):\d+:\d+~(\d+):\d+:\d+', sexp.dump(e)):
+                        a, b = int(m.group(1)), int(m.group(2))
+                        if a < lo_b or (hi_b is not None and b > hi_b):
+                            fails.append(((len(it) - 1, n_ + 1), '%s: error %d %s has span %s outside its segment (bytes %d..%s)'
+                                          % (what, n_ + 1, sexp.dump(e)[:100], m.group(0), lo_b, 'end' if hi_b is None else hi_b)))
+                            break
         return fails
 
     def bad_tail_at_eof(self, c):
